@@ -62,6 +62,10 @@ pub enum Root {
     WithCapacityAndHasher(usize),
     FromVec(Vec<Pair>),
     FromIter(Vec<Pair>, Hint),
+    /// a queue that held three other elements, was emptied (0 clear, 1 drain consumed, 2 drain
+    /// partially consumed, 3 drain leaked, 4 pop until empty, 5 retain nothing, 6 drain untouched)
+    /// and was refilled by pushing the pairs (distinct items)
+    Refilled(u8, Vec<Pair>),
 }
 
 #[derive(Clone, Debug)]
@@ -98,6 +102,36 @@ pub fn build_root<Q: QueueLike>(r: &Root) -> Q {
         Root::WithCapacityAndHasher(c) => Q::q_with_capacity_and_hasher(*c),
         Root::FromVec(v) => Q::q_from_vec(v.iter().map(|&p| mk(p)).collect()),
         Root::FromIter(v, h) => Q::q_from_iter(Hinted::new(v.iter().map(|&p| mk(p)).collect(), h.lo, h.hi)),
+        Root::Refilled(how, v) => {
+            let mut q = Q::q_new();
+            for (j, p) in [5, 9, 1].iter().enumerate() {
+                q.q_push(Item::new(900 + j as u32, 0), Prio::new(*p));
+            }
+            match how {
+                0 => q.q_clear(),
+                1 => {
+                    let mut it = q.q_drain();
+                    while it.nx().is_some() {}
+                }
+                2 => {
+                    let mut it = q.q_drain();
+                    it.nx();
+                }
+                3 => {
+                    let mut it = q.q_drain();
+                    it.nx();
+                    std::mem::forget(it);
+                }
+                4 => while q.q_pop_hi().is_some() {},
+                5 => q.q_retain(|_, _| false),
+                _ => drop(q.q_drain()),
+            }
+            for &p in v {
+                let (i, pr) = mk(p);
+                q.q_push(i, pr);
+            }
+            q
+        }
     }
 }
 
@@ -106,9 +140,9 @@ pub fn root_model(r: &Root) -> (Model, Vec<(u32, Vec<u8>)>) {
     let mut m = Model::new();
     let mut flex: Vec<(u32, Vec<u8>)> = vec![];
     match r {
-        Root::FromVec(v) => {
+        Root::FromVec(v) | Root::Refilled(_, v) => {
             for &(k, pl, p) in v {
-                m.entry(k).or_insert((pl, p)); // first wins
+                m.entry(k).or_insert((pl, p)); // first wins (Refilled: the items are distinct)
             }
         }
         Root::FromIter(v, _) => {
